@@ -150,7 +150,7 @@ func (m *cmapMachine) run(fn *ssa.Function, cs cmapCase) cmapOutcome {
 		switch {
 		case cc.StaticCallee() == m.ia.e:
 			if len(cc.Args) > 1 {
-				return symV("error:" + c.errNameOfArg(cc.Args[1])), true
+				return symV("error:" + c.errNameG(cc.Args[1])), true
 			}
 		case n == "bytes.Compare" && len(args) == 2:
 			r := cs.order
@@ -589,7 +589,12 @@ func (c *Ctx) cmapComparator(cmp *ssa.Function, field, key string, lengthFirst b
 				}
 				return sv{}, false
 			}
+			ev.inlineLib = cmpHelperG
 			ev.oracle = func(op token.Token, x, y sv) (bool, bool) {
+				if x.k == svSym && y.k == svSym && x.s == y.s && strings.HasPrefix(x.s, "len(key(") {
+					// an integer compared with itself (cmp.Compare's NaN test)
+					return op == token.EQL || op == token.LEQ || op == token.GEQ, true
+				}
 				if x.s == "len(key(i))" && y.s == "len(key(j))" || x.s == "len(key(j))" && y.s == "len(key(i))" {
 					r := lenRel
 					if x.s == "len(key(j))" {
